@@ -78,6 +78,11 @@ def gen_history(rnd: random.Random, flavor: dict) -> dict:
             template["arrays"]["tags"] = [rnd.randint(1, 3) for _ in range(k)]
         if rnd.random() < 0.3:
             template["arrays"]["initial_charges"] = [gen.rfloat(rnd, -1, 1, 3) for _ in range(k)]
+        if rnd.random() < flavor.get("template_extra_arrays", 0.15):
+            # several per-atom arrays the host atoms may lack (their creation order must not depend on anything but the input)
+            template["arrays"]["vec2"] = [[gen.rfloat(rnd, -1, 1, 3), gen.rfloat(rnd, -1, 1, 3)] for _ in range(k)]
+            if rnd.random() < 0.5:
+                template["arrays"]["momenta"] = [[gen.rfloat(rnd, -1, 1, 3) for _ in range(3)] for _ in range(k)]
         sc["exchange"] = template
         n = p0 * k + nfw
         atoms = gen.gen_atoms(rnd, n, cell, arrays=arrays_p, uid=True)
@@ -495,9 +500,25 @@ class HistoryCampaign(Campaign):
 
     def execute(self, sc):
         mons = self.make_monitors(sc)
-        w = make_world(sc, mons, self.world_opts)
+        try:
+            w = make_world(sc, mons, self.world_opts)
+        except Exception as exc:  # noqa: BLE001
+            # the package refusing a generated (legal) deployment while it is being assembled
+            from simkit.core import RunResult, classify_exception
+
+            info = classify_exception(exc)
+            res = RunResult()
+            if info["harness"]:
+                res.harness_error = info["text"]
+            elif not self.on_build_exception(sc, info, res):
+                res.foreign.append({k: info[k] for k in ("type", "where", "owner")} | {"phase": "build"})
+                res.count("foreign_exception")
+            return res.pack()
         res = w.run()
         return res.pack()
+
+    def on_build_exception(self, sc, info, res) -> bool:
+        return False
 
     def shrink_candidates(self, sc, signature, violation):
         return shrink_mc(sc, signature, violation)
